@@ -221,12 +221,10 @@ def execute(schedule, ctx):
     parties = {}
     for who in 'ABCR':
         try:
-            m, span, endo, check, exo = S.build(fsic, spec)
-        except Exception as e:
-            if spec['kind'] == 'parser':
-                ctx.log('build-failed', type(e).__name__)
-                return
-            raise
+            m, span, endo, check, exo = S.build(fsic, spec, ctx)
+        except S.BuildFailed:
+            ctx.log('build-failed')
+            return
         _apply_pokes(m, schedule.get('pokes', []), len(span))
         parties[who] = m
     A, B, C, R = (parties[k] for k in 'ABCR')
@@ -469,7 +467,7 @@ def _loop(m, positions, opts, intr, how, spec, span, judge=None, extra=None):
                     'opts': opts, 'n': len(span), 't': t, 'endo': endo, 'check': check, 'exo': exo, 'snap': snap,
                     'post': post_, 'log': ctl.log[n0:], 'raised': ctl.raised[nr0:],
                     'outcome': {'kind': 'return', 'value': o['value']} if o['kind'] == 'return' else {'kind': 'raise', 'exc': o['exc']},
-                    'scripted': spec['kind'] == 'scripted', 'feasible': spec['lags'] <= t <= len(span) - 1 - spec['leads'], 'np_err': ctx.np_err,
+                    'shorter_than_script': S.shorter_than_script(spec), 'scripted': spec['kind'] == 'scripted', 'feasible': spec['lags'] <= t <= len(span) - 1 - spec['leads'], 'np_err': ctx.np_err,
                 }
                 ref_solver.judge_single(call, lambda sig, ok, detail=None: ctx.check('C05', 'period-policy/' + sig, ok, detail), None)
             if o['kind'] != 'return':
